@@ -46,7 +46,12 @@ func genC01(seed uint64, r *rng.Rand) *Plan {
 		nf := g.R.Range(1, 2)
 		for i := 0; i < nf; i++ {
 			ts := &p.Layout.Tables[g.R.Intn(len(p.Layout.Tables))]
-			switch g.R.Intn(3) {
+			switch g.R.Intn(4) {
+			case 3:
+				// a hole in hbase:meta for a while: keys of the hidden region (its
+				// start key included) find the row of the region before it
+				p.Faults = append(p.Faults, &Fault{On: "exec", N: g.R.Range(0, 10), Act: "metahole", Table: ts.Name, Region: g.R.Intn(6)})
+				p.Faults = append(p.Faults, &Fault{On: "ms", N: g.R.Range(200, 20000), Act: "metaunhide"})
 			case 0:
 				p.Faults = append(p.Faults, &Fault{On: "exec", N: g.R.Range(2, 30), Act: "split", Table: ts.Name, Region: g.R.Intn(6),
 					Key: g.KeyNear(ts.Splits, 4), Server: g.R.Intn(3), To: g.R.Intn(3)})
